@@ -377,6 +377,31 @@ PROPS["C13"] = dict(
     level_note="Trusted: the settings model in props/c13.cpp, ASan/LSan, shim.",
 )
 
+PROPS["C18"] = dict(
+    level="exploration",
+    default_binary="c18",
+    binaries={"c18": dict(src=["props/c18.cpp", "adapters/adapter.c"], variants=["b_idn2", "b_idn", "b_idnkit"])},
+    stages=[
+        stage("corpus"),
+        stage("histories"),
+        stage("random", kind="rc", quick=4000, thorough=40000, max_size=100),
+        stage("randhist", kind="rc", quick=1500, thorough=15000, max_size=100),
+    ],
+    rule="Configurations: the three partial/<backend> source sets built by the repository's Makefile (FORCE_IDN=idn2|idn|idnkit) against adapter "
+         "headers, linked into one process. Inputs: the repository corpus, every line of tld-domains.txt, every table row, grammar-based random "
+         "addresses and IDN hosts (4 modes x tld_check {0,1}, default / random allow_tld, eav_is_email and is_<mode>_email); histories: all operation "
+         "sequences of length <= 5 (quick) / <= 6 (thorough) over the 12-operation pool of C13 and random histories of up to 120 operations, "
+         "executed in lockstep on the three builds with the adapter's context counters read after every step. Non-trivial = address with a "
+         "host-name domain (the IDN path is reachable) / history with at least one eav_setup; distinct by input hash.",
+    assumptions=["real libidn and idnkit are not installed: what is verified is the repository's glue code in all three source sets under equivalent "
+                 "conversions (adapters/adapter.c maps both APIs onto idn2_to_ascii_8z, IDN2_NONTRANSITIONAL), as the statement words it",
+                 "backend state = idnkit contexts counted by the adapter (malloc'd token per context: LSan sees leaks, abort on destroy of a dead context)"],
+    min_evaluations=dict(quick=2_000_000, thorough=20_000_000),
+    technique="configuration differential: three backend builds in one process compared on every generated address and at every step of enumerated and rapidcheck-generated histories; resource-count invariant on the adapter",
+    level_text="Exploration by differential between build configurations plus a resource invariant (contexts created == destroyed, one live context per object in mode 6531) checked after every operation.",
+    level_note="Trusted: the adapters (70 lines), libidn2, ASan/LSan, the Makefile's FORCE_IDN/DEFS mechanism, shim.",
+)
+
 
 def stages_for(pid, tier):
     out = []
